@@ -123,6 +123,8 @@ class Decl:
                     vs.append(v.kind)
                 elif v.kind == 'predicate':
                     vs.append('predicate = ' + v.fn.src)
+                elif v.kind == 'regex':
+                    vs.append('regex = ' + v.bound.src)
                 else:
                     vs.append('%s = %s' % (v.kind, v.bound.src))
             parts.append('validate(' + ', '.join(vs) + ')')
@@ -220,4 +222,6 @@ class Decl:
             if self.family in ('int', 'float'):
                 return '%s(&%s)' % (v.fn.name, x)
             return '%s(%s)' % (v.fn.name, x)
+        if k == 'regex':
+            return '::regex::Regex::new(%s).unwrap().is_match(%s)' % (v.bound.ref, x)
         raise ValueError(k)
